@@ -202,8 +202,35 @@ def rule_tablecopy(P) -> RuleResult:
                 ok = False
                 res.fail(upd.fq, f'tablecopy:{name}', f'update() must set `{name}` on the copy to the value of the clause; it holds '
                          f'`{show(p.heap.get(_attr(COPY, name)))}`', loc(upd))
+    # clauses the statement does not have are reset: the table the compiler updates may be the enclosing SELECT's table
+    # (a nested SELECT is compiled while the enclosing one's clauses are in force), so absent clauses must overwrite
+    kw0 = T('dict', (('open', None), ('close', None), ('clear', None)))
+
+    def on_call0(fname, fval, recv, args, kwargs, ex, node):
+        f = str(fname)
+        if f in ('copy.copy', 'copy.deepcopy', 'copy') and args == (TABLE,):
+            return T('new', ('copy', TABLE))
+        if recv == kw0 and f.endswith('.items'):
+            return SList([T('tuple', kv) for kv in kw0.args])
+        return NotImplemented
+    env0 = {'self': TABLE}
+    if a.kwarg:
+        env0[a.kwarg.arg] = kw0
+    else:
+        for p_ in upd.params[1:]:
+            env0[p_] = None
+    for p in Engine(P, on_call=on_call0).paths(upd, env0):
+        COPY = T('new', ('copy', TABLE))
+        for name in ('open', 'close', 'clear'):
+            st = [e for e in p.events if e[0] == 'store' and e[1] == _attr(COPY, name)]
+            if not st or st[-1][2] is not None:
+                ok = False
+                res.fail(upd.fq, f'tablecopy:reset:{name}', f'update({name}=None) must reset `{name}` on the copy: a FROM clause without '
+                         f'{name.upper()} does not have it, whatever the table it is applied to carried (a nested SELECT is compiled on the '
+                         f'table of the enclosing one and would inherit its clauses)', loc(upd))
     if ok:
-        res.ok({'method': upd.fq, 'writes': 'only to copy.copy(self), which is returned', 'fields': ['open', 'close', 'clear']})
+        res.ok({'method': upd.fq, 'writes': 'only to copy.copy(self), which is returned', 'fields': ['open', 'close', 'clear'],
+                'absent_clauses': 'reset to None'})
     return res
 
 
@@ -407,4 +434,141 @@ def rule_onceperrow(P) -> RuleResult:
         res.fail(f.construct, 'onceperrow:rowid', f.message + ' (two rows would share an id and the second would not be added to the balance)', f.where)
     if not rowid:
         res.ok({'generators': ['EntriesTable.__iter__', 'PostingsTable.__iter__'], 'rowid': 'bumped once per yielded row'})
+    return res
+
+
+# ----------------------------------------------------------------------
+# R-DEFAULTCLOSE (C13, C19): .run NAME closes the ledger at the date of the query directive unless the query says otherwise
+
+SH = 'beanquery.shell'
+
+
+def rule_defaultclose(P) -> RuleResult:
+    res = RuleResult('R-DEFAULTCLOSE')
+    res.exhaustive = True
+    sh = P.module(SH)
+    shell = sh.classes.get('BQLShell')
+    parse = shell.methods.get('parse') if shell else None
+    if parse is None:
+        raise AnalysisError('anchor vanished: BQLShell.parse')
+    SHELL, LINE, DEF, STMT = Sym('SHELL'), Sym('LINE'), Sym('DEFAULT_CLOSE_DATE'), Sym('STATEMENT')
+    FROM = _attr(STMT, 'from_clause')
+    dparams = [p for p in parse.params[2:]]
+    n = 0
+    ok = True
+    for is_select in (True, False):
+        for is_from in (True, False):
+            for close in (None, False, True, Sym('CLOSE_DATE')):
+                n += 1
+
+                def on_attr(base, attr, ex):
+                    if base == FROM and attr == 'close':
+                        return close
+                    return NotImplemented
+
+                def on_call(fn, fv, rc, a, k, ex, nd):
+                    if str(fn).endswith('.parse') and a == (LINE,):
+                        return STMT
+                    return NotImplemented
+
+                def on_isinstance(v, c, ex):
+                    cn = gname(c)
+                    if v == STMT:
+                        return is_select if cn.endswith('Select') else False
+                    if v == FROM:
+                        return is_from if cn.endswith('From') else False
+                    if cn.endswith('date'):
+                        return isinstance(v, Sym) and v.name == 'CLOSE_DATE'
+                    return NotImplemented
+                env = {'self': SHELL, parse.params[1]: LINE}
+                if dparams:
+                    env[dparams[0]] = DEF
+                for p in Engine(P, on_attr=on_attr, on_call=on_call, on_isinstance=on_isinstance).paths(parse, env):
+                    stores = [e for e in p.events if e[0] == 'store']
+                    want = is_select and is_from and not close      # CLOSE absent: None (or False); bare CLOSE is True, dated CLOSE a date
+                    did = [e for e in stores if e[1] == _attr(FROM, 'close')]
+                    other = [e for e in stores if e[1] != _attr(FROM, 'close')]
+                    case = f'statement {"is" if is_select else "is not"} a SELECT, FROM clause {"is" if is_from else "is not"} a FROM expression, ' \
+                           f'CLOSE {"absent" if not close else "without a date" if close is True else "with a date"}'
+                    key = f'defaultclose:{int(is_select)}{int(is_from)}{"set" if close else "unset"}'
+                    if p.outcome != 'return' or p.value != STMT:
+                        ok = False
+                        res.fail(parse.fq, key, f'{case}: parse() must return the parsed statement; {p.outcome} `{show(p.value)[:60]}`', loc(parse))
+                        continue
+                    if other:
+                        ok = False
+                        res.fail(parse.fq, 'defaultclose:state', f'{case}: parse() writes `{show(other[0][1])}`: the default close date is a per-call '
+                                 f'value; state kept in the shell survives the statement it was meant for', loc(parse))
+                        continue
+                    if bool(did) != want:
+                        ok = False
+                        res.fail(parse.fq, key, f'{case}: default close date {"applied" if did else "not applied"}; it must be applied exactly when a '
+                                 f'SELECT has a FROM expression without CLOSE', loc(parse))
+                        continue
+                    if did and did[0][2] != DEF:
+                        ok = False
+                        res.fail(parse.fq, 'defaultclose:state', f'{case}: the default close date is taken from `{show(did[0][2])}`, not from an '
+                                 f'argument of this call: kept in the shell it survives the statement it was meant for and silently closes a '
+                                 f'later, unrelated statement', loc(parse))
+    if ok:
+        res.ok({'function': parse.fq, 'cases': n})
+    # .run NAME / .run * execute the query text with the date of its directive as the default, and execute() hands it to parse()
+    run = shell.methods.get('do_run')
+    if run is None:
+        raise AnalysisError('anchor vanished: BQLShell.do_run')
+    QUERY = Sym('QUERY_DIRECTIVE')
+    executed = []
+
+    def on_call_run(fn, fv, rc, a, k, ex, nd):
+        f = str(fn)
+        if f.endswith('.execute') and rc == SHELL:
+            executed.append((a, dict(k)))
+            return None
+        if f == 'shlex.split':
+            return SList(['NAME'])
+        if f.endswith('queries.get'):
+            return QUERY
+        if f.endswith('queries.items'):
+            return SList([T('tuple', ('NAME', QUERY))])
+        if f in ('print', 'sorted') or f.endswith('.error') or f.endswith('.join'):
+            return a[0] if f == 'sorted' and a else None
+        return NotImplemented
+    good = True
+    for arg in ('NAME', '*'):
+        executed.clear()
+        Engine(P, on_call=on_call_run).paths(run, {'self': SHELL, run.params[1]: arg})
+        if not executed or any(a != (_attr(QUERY, 'query_string'),) or kw.get('default_close_date', None) != _attr(QUERY, 'date') or len(kw) != 1
+                               for a, kw in executed):
+            good = False
+            res.fail(f'{shell.fq}.do_run', 'defaultclose:run', f'.run {arg} must execute the text of the named query with the date of its query '
+                     f'directive as default close date (execute(query.query_string, default_close_date=query.date)); got '
+                     f'{[(tuple(map(show, a)), {k: show(v) for k, v in kw.items()}) for a, kw in executed] or "no execution"}', loc(run))
+    # execute(query, **kwargs) -> parse(query, **kwargs)
+    exe = P.find_method(shell, 'execute')
+    KW = Sym('KWARGS')
+    parsed = []
+
+    def on_call_exe(fn, fv, rc, a, k, ex, nd):
+        f = str(fn)
+        if f.endswith('.parse') and rc == SHELL:
+            parsed.append((a, k))
+            return STMT
+        if f == 'getattr' or f == 'type':
+            return Sym('HANDLER') if f == 'getattr' else Sym('TYPE')
+        return NotImplemented
+    env = {'self': SHELL, exe.params[1]: LINE}
+    if exe.node.args.kwarg:
+        env[exe.node.args.kwarg.arg] = KW
+    Engine(P, on_call=on_call_exe).paths(exe, env)
+    flows = bool(parsed) and all(a == (LINE,) and any(isinstance(v, T) and v.op == 'star' or v == KW or k is None for k, v in kw) or
+                                 any(KW in (x.args if isinstance(x, T) else ()) or x == KW for x in a) for a, kw in parsed)
+    if not parsed:
+        good = False
+        res.fail(exe.fq, 'defaultclose:run', 'execute() does not parse its statement through self.parse()', loc(exe))
+    elif not flows:
+        good = False
+        res.fail(exe.fq, 'defaultclose:run', f'execute() must hand its keyword arguments (the default close date) on to parse(); it calls parse'
+                 f'({", ".join(map(show, parsed[0][0]))}, {", ".join(f"{k}={show(v)}" for k, v in parsed[0][1])})', loc(exe))
+    if good:
+        res.ok({'function': run.fq, 'passes': 'default_close_date=query.date', 'through': 'execute(**kwargs) -> parse(**kwargs)'})
     return res
